@@ -99,6 +99,11 @@ def props_for(path):
                 if e not in ids:
                     ids.append(e)
             break
+    # the compiler, the node tree and the checker are behind most of the schema properties
+    if re.search(r"^notations/jschema/(loader|ischema|checker)/|^notations/jschema/[^/]+\.go$", path):
+        for e in ["C01", "C04", "C07", "C08"]:
+            if e not in ids:
+                ids.append(e)
     return sorted(ids, key=lambda i: COST.get(i, 9))
 
 
